@@ -226,14 +226,6 @@ func (v *view) eligibleUnplaced() (all, notOversized []uint64) {
 // judgeC04: placements fit; oversized targets neither assigned nor a reason to scale up.
 func judgeC04(v *view, o *Obs, res *core.CaseResult) {
 	opt := v.c.Opt
-	overloaded := false
-	for i := 0; i < v.n; i++ {
-		if v.insync[i] {
-			if v.proc[i] >= opt.MaxProc || (opt.MaxHead != 0 && float64(v.head[i]) >= float64(opt.MaxHead)*1.1-1) {
-				overloaded = true
-			}
-		}
-	}
 	for j := 0; j < v.n; j++ {
 		if !v.insync[j] {
 			continue
@@ -270,17 +262,46 @@ func judgeC04(v *view, o *Obs, res *core.CaseResult) {
 			res.Violate("C04/process-limit/"+kind, "shard %d reported process series %d and was given %v (+%d) which is not below the process limit %d", j, v.proc[j], pl, sp, opt.MaxProc)
 		}
 	}
+	// Oversized targets must never be the reason for a scale-up. A scale request above the current count
+	// is unjustified when (a) no placeable new target is left unassigned and (b) every in-sync shard that
+	// is over a relief threshold holds nothing relief could move except oversized targets - then the only
+	// things that "need space" are targets that alone exceed a limit.
 	all, notOver := v.eligibleUnplaced()
-	if len(all) > 0 && len(notOver) == 0 {
-		res.AddStat("cycles_with_only_oversized_unplaced", 1)
-		if !overloaded {
+	reliefCouldNeedSpace := false
+	oversizedHeld := 0
+	for i := 0; i < v.n; i++ {
+		if !v.insync[i] {
+			continue
+		}
+		over := v.proc[i] >= opt.MaxProc || (opt.MaxHead != 0 && float64(v.head[i]) >= float64(opt.MaxHead)*1.1-1)
+		if !over {
+			continue
+		}
+		for _, t := range v.R(i) {
+			// any healthy copy may be moved by relief (an in_transfer copy without partner is restored to normal first)
+			if t.Health != "up" {
+				continue
+			}
+			if v.oversized(t.Series, t.Total) {
+				oversizedHeld++
+			} else {
+				reliefCouldNeedSpace = true
+			}
+		}
+	}
+	if (len(all) > 0 || oversizedHeld > 0) && len(notOver) == 0 {
+		res.AddStat("cycles_with_only_oversized_needing_space", 1)
+		if oversizedHeld > 0 {
+			res.AddStat("cycles_with_oversized_target_on_overloaded_shard", 1)
+		}
+		if !reliefCouldNeedSpace {
 			lim := int32(v.n)
 			if opt.Min > lim {
 				lim = opt.Min
 			}
 			for _, s := range v.scales {
 				if s.Arg > lim {
-					res.Violate("C04/oversized-causes-scale-up", "only oversized targets %v are unassigned and no shard is overloaded, yet %d shards were requested (current %d, min %d)", all, s.Arg, v.n, opt.Min)
+					res.Violate("C04/oversized-causes-scale-up", "only oversized targets need space (unassigned: %v, held by overloaded shards: %d) yet %d shards were requested (current %d, min %d)", all, oversizedHeld, s.Arg, v.n, opt.Min)
 					break
 				}
 			}
